@@ -194,6 +194,88 @@ def _pdf(objs: dict, trailer: str) -> bytes:
     return bytes(out)
 
 
+# ------------------------------------------------------------------------------------ hostile image headers
+IMG_TRICKS = ("zero", "tiny", "huge", "many")
+
+
+def hostile_image(kind: str, trick: str) -> bytes:
+    """A small picture whose FIRST length field (JPEG marker segment / PNG chunk / BMP header size and data
+    offset / GIF sub-block) is 0 ("zero": a scanner that adds the length never moves), 1 ("tiny": shorter than the
+    field itself), the maximum ("huge": far beyond the end of the data) or is repeated 2000 times with the
+    smallest legal value ("many").  The frame header with the real dimensions follows where a scanner that skips
+    correctly finds it."""
+    from .writers import images as IM
+    if kind == "jpeg":
+        base = IM.jpeg(7, 5)
+        rest = base[2:]                                    # after SOI: APP0 ... SOF0 ...
+        seg = {"zero": b"\xff\xe1\x00\x00", "tiny": b"\xff\xe1\x00\x01", "huge": b"\xff\xe1\xff\xff",
+               "many": b"\xff\xe1\x00\x02" * 2000}[trick]
+        return base[:2] + seg + rest
+    if kind == "png":
+        base = IM.png(7, 5)
+        ln = {"zero": 0, "tiny": 1, "huge": 0xFFFFFFFF, "many": 0}[trick]
+        if trick == "many":                                # 2000 empty ancillary chunks in front of IHDR
+            empty = struct.pack(">I", 0) + b"tEXt" + struct.pack(">I", 0x2D8E9D5A)
+            return base[:8] + empty * 2000 + base[8:]
+        return base[:8] + struct.pack(">I", ln) + base[12:]      # IHDR length field
+    if kind == "bmp":
+        base = bytearray(IM.bmp(7, 5))
+        v = {"zero": 0, "tiny": 1, "huge": 0xFFFFFFFF, "many": 0x7FFFFFFF}[trick]
+        struct.pack_into("<I", base, 2, v)                 # file size
+        struct.pack_into("<I", base, 10, v)                # offset of the pixel data
+        struct.pack_into("<I", base, 14, v)                # DIB header size
+        return bytes(base)
+    if kind == "gif":
+        base = IM.gif(7, 5)
+        head, tail = base[:19], base[19:]                  # header + LSD + 2-colour table | image descriptor ...
+        sub = {"zero": b"\x21\xff\x00", "tiny": b"\x21\xff\x01", "huge": b"\x21\xff\xff",
+               "many": b"\x21\xfe\x01a\x00" * 2000}[trick]       # application / comment extension sub-blocks
+        return head + sub + tail
+    raise ValueError(kind)
+
+
+def _ole_patch_jpeg(path: Path, trick: str) -> bytes:
+    """Patch the length of the first marker segment of the JPEG stored in an OLE fixture (in place)."""
+    raw = bytearray(path.read_bytes())
+    at = bytes(raw).find(b"\xff\xd8\xff")
+    if at < 0:
+        raise ValueError("no JPEG in the fixture")
+    struct.pack_into(">H", raw, at + 4, {"zero": 0, "tiny": 1, "huge": 0xFFFF}[trick])
+    return bytes(raw)
+
+
+def _image_host(host: str, kind: str, data: bytes):
+    ext = {"jpeg": "jpg"}.get(kind, kind)
+    media = {"jpeg": "image/jpeg", "png": "image/png", "gif": "image/gif", "bmp": "image/bmp"}[kind]
+    para = {"blocks": [["p", [["r", 1]]]]}
+    if host == "rtf":
+        blip = {"jpeg": "\\jpegblip", "png": "\\pngblip"}[kind]
+        doc = ("{\\rtf1\\ansi\\deff0{\\fonttbl{\\f0 Arial;}}\n\\f0\\fs24 before\\par\n{\\pict" + blip
+               + "\\picw7\\pich5 " + data.hex() + "}\\par\nafter\\par}\n").encode()
+        return "rtf", doc, len(doc)
+    if host == "docx":
+        pkg = W_docx.write_docx(para, images=[(f"media/image1.{ext}", data, f"word/media/image1.{ext}")])
+        return "docx", pkg, zip_usize(pkg)
+    if host == "pptx":
+        from .writers import pptx as W_pptx
+        pkg = W_pptx.write_pptx({"kind": "deck", "slides": [{"shapes": [["text", [[["r", 1]]]]], "images": [
+            {"target": f"../media/image1.{ext}", "part": f"ppt/media/image1.{ext}", "data": data}]}]})
+        return "pptx", pkg, zip_usize(pkg)
+    if host == "xlsx":
+        pkg = W_xlsx.write_xlsx({"sheets": [{"name": "S", "rows": [[["s", 1]]], "images": [
+            {"target": f"../media/image1.{ext}", "part": f"xl/media/image1.{ext}", "data": data}]}]})
+        return "xlsx", pkg, zip_usize(pkg)
+    if host == "odt":
+        pkg = W_odf.write_odt({**para, "images": [{"target": f"Pictures/i1.{ext}", "part": f"Pictures/i1.{ext}",
+                                                    "data": data}]})
+        return "odt", pkg, zip_usize(pkg)
+    if host == "epub":
+        pkg = W_web.write_epub({"chapters": [para], "images": [
+            {"part": f"OEBPS/img/a.{ext}", "data": data, "href": f"img/a.{ext}", "media": media}]})
+        return "epub", pkg, zip_usize(pkg)
+    raise ValueError(host)
+
+
 # ------------------------------------------------------------------------------------ the builder
 def build(construct: str, mag: int, pos: str, rng) -> dict:
     c = construct
@@ -327,6 +409,16 @@ def build(construct: str, mag: int, pos: str, rng) -> dict:
                     left -= k
         data = buf.getvalue()
         return {"ext": "zip", "data": data, "usize": len(data) + (mag if pos == "admitted" else 0), "note": note}
+    # ---- hostile image headers inside documents.  pos = "<kind>_<trick>@<host>"
+    if c == "image_header":
+        kt, host = pos.split("@")
+        kind, trick = kt.split("_")
+        if host in ("ppt", "xls"):
+            fx = {"ppt": FIX / "legacy_ms" / "ppt_with_images.ppt", "xls": FIX / "legacy_ms" / "xls_with_images.xls"}[host]
+            data = _ole_patch_jpeg(fx, trick)
+            return {"ext": host, "data": data, "usize": len(data), "note": note}
+        ext, data, usize = _image_host(host, kind, hostile_image(kind, trick))
+        return {"ext": ext, "data": data, "usize": usize, "note": note}
     # ---- mailbox with many separators.  mag = number of "From " lines
     if c == "mbox_from":
         if pos == "bare":
